@@ -143,6 +143,24 @@ func genSrvAcct(p *prng, thorough bool, w *bufio.Writer) {
 			}
 			g.gauges()
 		}
+		// 2b. the same three sizes reached by the pseudo-header fields alone (a long :path, nothing after it): the limit
+		// is on the whole list, whichever kind of field the octets are in
+		g.newConn(8, maxHdr, 0)
+		g.settings()
+		for _, d := range []int{-1, 0, 1, 200} {
+			sid := g.sid()
+			fs := []kv{{k: ":method", v: "GET"}, {k: ":scheme", v: "https"}, {k: ":authority", v: "a"}, {k: ":path", v: "/"}}
+			fs[3].v = "/" + strings.Repeat("p", maxHdr+d-listSize(fs))
+			split := 0
+			if p.chance(1, 2) {
+				split = 1 + p.intn(40)
+			}
+			g.acctHeaders(sid, fs, true, split)
+			if d <= 0 {
+				g.done(sid, respGen{status: 200, body: "none"})
+			}
+			g.gauges()
+		}
 
 		// 3. the concurrency limit with cancelled streams holding their slots
 		mcs := 1 + p.intn(3)
